@@ -152,6 +152,7 @@ func c01SemSpecs(quick bool) []*SeqSpec {
 			op(cl, withTF(L(0, 1, id, 2, 50, 0, 0), 0x0200)),    // wait when unlocked
 			op(cl, withEF(L(0, 1, id, 0, 50, 1, 0), efZeroAof)), // enters the long expiry table at once
 			op(cl, withTF(L(0, 1, id, 3000, 50, 1, 0), fMilli)), // millisecond wait
+			op(cl, withTF(L(0, 1, id, 2, 50, 0, 3), 0x10)),      // priority request (Rcount = priority 3), waits 2 s
 			op(cl, U(0, 1, id)),
 			op(cl, hapi.Cmd{Type: 2, Key: 1, Id: id, Flag: 0x01}), // unlock first
 			op(cl, hapi.Cmd{Type: 2, Key: 1, Id: id, Flag: 0x02})) // cancel wait
